@@ -107,7 +107,7 @@ PROPS = {
     "C09": dict(
         level="model_checking", engine="seq",
         technique="bounded-exhaustive enumeration of message sequences (valid/invalid, runs beyond the retry budget) executed on the instrumented real advertiser and monitor under a virtual clock; counters and liveness checked after every sequence",
-        text="Every single message type x hop limit, and all sequences up to length L over {valid RS, bad-hop RS, NS, bad-hop RA} followed by a valid RS, are read by the real listener of a running advertiser and of a running monitor. After each sequence the invalid counter, the handled/monitor counters and the unicast RAs must match the valid/invalid split exactly, Run must still be running and the interface must not have been re-dialled.",
+        text="Every single message type x hop limit, and all sequences up to length L (5 quick, 7 thorough) over {valid RS, bad-hop RS, NS, bad-hop RA, transient receive timeout} followed by a valid RS, are read by the real listener of a running advertiser and of a running monitor. After each sequence the invalid counter, the handled/monitor counters and the unicast RAs must match the valid/invalid split exactly, Run must still be running and the interface must not have been re-dialled.",
         note="Canonical goroutine schedule per sequence; messages 10 ms apart; hop limits in the sequence alphabet are 64 and 1 (all 256 in the single-message sweep of the thorough tier).",
         parts=[part("sequences", "internal/corerad", "TestVerifC09", mode="sched", gomaxprocs=2, shards={"quick": 12, "thorough": 16})],
     ),
